@@ -1,7 +1,55 @@
-(* C18 -- the same configuration means the same thing in every config format. (theorems are added as they are proved) *)
-From Coq Require Import List NArith.
-From BV Require Import Lib.PyStr Model.V1 Model.Config.
+(* C18 -- the same configuration means the same thing in every config format. *)
+From Coq Require Import List Bool NArith.
+From BV Require Import Lib.PyStr Model.V2 Model.V1 Model.Config Gen.Tables Proofs.ConfigFacts.
 Import ListNotations.
-Example C18_ini_yes_is_true : ini_bool (Some (RStr [89;69;83]%N)) None = Some (RBool true).
+Local Open Scope N_scope.
+
+Theorem C18_tag_push_require_commit : forall boolf c e, parse_config boolf c = Some e ->
+  (e_tag e = true -> e_commit e = true) /\ (e_push e = true -> e_commit e = true).
+Proof. exact tag_push_require_commit. Qed.
+Print Assumptions C18_tag_push_require_commit.
+
+Theorem C18_ini_truthy_spellings : forall s,
+  ini_bool (Some (RStr s)) None = Some (RBool (mem_str (lower_ascii s) INI_TRUTHY)).
+Proof. exact ini_truthy_spellings. Qed.
+Print Assumptions C18_ini_truthy_spellings.
+
+(* yes true 1 on ; commit: False, tag: None, push: None *)
+Theorem C18_repo_truthy_table :
+  INI_TRUTHY = [ [121;101;115]; [116;114;117;101]; [49]; [111;110] ] /\
+  BOOL_OPTIONS = [ ([99;111;109;109;105;116], Some false); ([116;97;103], None); ([112;117;115;104], None) ].
+Proof. exact repo_truthy_table. Qed.
+Print Assumptions C18_repo_truthy_table.
+
+(* the two readers agree: an INI file and a TOML file that spell the same abstract settings
+   (abscfg, raw_ini, raw_toml in Proofs/ConfigFacts.v) give the same effective configuration *)
+Theorem C18_formats_agree : forall a spell quote,
+  (forall b, mem_str (lower_ascii (spell b)) INI_TRUTHY = b) ->
+  (forall s, strip_q (quote s) = strip_q s) ->
+  parse_config_ini (raw_ini spell quote a) = parse_config_toml (raw_toml a).
+Proof. exact formats_agree. Qed.
+Print Assumptions C18_formats_agree.
+
+(* wrapping any value in double quotes satisfies the second hypothesis *)
+Theorem C18_strip_q_dquote : forall s, strip_q ([34] ++ s ++ [34]) = strip_q s.
+Proof. exact strip_q_dquote. Qed.
+Print Assumptions C18_strip_q_dquote.
+
+(* YES / off as spellings, every value in double quotes *)
+Theorem C18_formats_agree_quoted : forall a,
+  parse_config_ini (raw_ini (fun b => if b then [89;69;83] else [111;102;102]) (fun s => [34] ++ s ++ [34]) a)
+  = parse_config_toml (raw_toml a).
+Proof. exact formats_agree_quoted. Qed.
+Print Assumptions C18_formats_agree_quoted.
+
+Example C18_formats_agree_instance :
+  parse_config_ini (raw_ini spell_yes_off quote_dq sample_cfg) = parse_config_toml (raw_toml sample_cfg) /\
+  parse_config_toml (raw_toml sample_cfg) =
+    Some (mkeff [49;46;50;46;51] [77;65;74;79;82;46;77;73;78;79;82;46;80;65;84;67;72] DEFAULT_COMMIT_MESSAGE DEFAULT_TAG_MESSAGE
+                s_global [] [] true true false true).
+Proof. exact formats_agree_instance. Qed.
+Print Assumptions C18_formats_agree_instance.
+
+Example C18_ini_yes_is_true : ini_bool (Some (RStr [89;69;83])) None = Some (RBool true).
 Proof. vm_compute. reflexivity. Qed.
 Print Assumptions C18_ini_yes_is_true.
